@@ -43,6 +43,19 @@ def run(chk, repo, tier):
             chk.ob("C05.R4", _construct, f"[{_rule}] {_key}", _ok, _detail, _where)
     if _err is not None and all(o[3] for o in _sub.obs):
         raise _err
+    # the statement's arguments aP, bQ are built with multiply: the ladder schema of the four modules (C07.R3) re-stated
+    from . import C07 as _dep_C07
+    _sub7 = _SubCheck()
+    _err7 = None
+    try:
+        _dep_C07.run(_sub7, repo, "quick")
+    except AnalysisError as _e:
+        _err7 = _e
+    for _rule, _construct, _key, _ok, _detail, _where in _sub7.obs:
+        if _rule == "C07.R3":
+            chk.ob("C05.R4", _construct, f"[{_rule}] {_key}", _ok, _detail, _where)
+    if _err7 is not None and all(o[3] for o in _sub7.obs):
+        raise _err7
     chk.rule("C05.R1", "is_on_curve(Q, b2) and is_on_curve(P, b) (the module's own coefficients) dominate the Miller loop; the false edges raise", 4)
     chk.rule("C05.R2", "an infinity argument yields FQ12.one() without evaluating any line function; no other caller of miller_loop", 4 * 2)
     chk.rule("C05.R3", "lock-step Miller loop: every line is through the running point and the point then added/doubled, f ← f²·ℓ / f·ℓ, "
